@@ -642,6 +642,18 @@ func (g *vcgen) store(x *ssa.Store) {
 			return
 		}
 	}
+	if fa, ok := x.Addr.(*ssa.FieldAddr); ok {
+		// a whole struct assigned to a struct-typed field (s.meta = T{}): the field address is a derived reference and
+		// has no addr entry; the store is a write to that field like any other (frame and monitor checks)
+		st := fa.X.Type().Underlying().(*types.Pointer).Elem()
+		if sst, isSt := st.Underlying().(*types.Struct); isSt {
+			ft := sst.Field(fa.Field).Type()
+			if _, isS := ft.Underlying().(*types.Struct); isS && isDecomposedStruct(ft) {
+				g.checkProtected(g.val(fa.X), st, fa.Field, true)
+				g.frameCheckField(g.val(fa.X), st, fa.Field)
+			}
+		}
+	}
 	p := g.val(x.Addr)
 	_, isAlloc := x.Addr.(*ssa.Alloc)
 	_, isCell := x.Addr.(*ssa.FreeVar)
